@@ -159,6 +159,30 @@ func c01ReadAll(c *Ctx, file []byte, whole, storeID bool, plain bool) VL {
 	return VL{winV, br, rr, c01Load(win, false), c01Load(win, true), ro, st}
 }
 
+// c01LoadObs: what RunRt.run_rtload prints -- DataReader length, a summary of the BlockReader's scan, and
+// root LoadCar into a Put-only and a PutMany store.
+func c01LoadObs(file []byte) Val {
+	var win []byte
+	if r, err := carv2.NewReader(bytes.NewReader(file)); err == nil {
+		if dr, err := r.DataReader(); err == nil {
+			win, _ = io.ReadAll(dr)
+		}
+	}
+	br := runScanImpl(0, defaultROpts, file, false).(VL)
+	var sum Val
+	if len(br) == 4 {
+		bl := br[3].(VL)[0].(VL)
+		first, last := Val(VL{}), Val(VL{VB(nil), VB(nil)})
+		if len(bl) > 0 {
+			first, last = bl[0], bl[len(bl)-1]
+		}
+		sum = VL{VN(uint64(len(bl))), first, last, br[3].(VL)[1]}
+	} else {
+		sum = br
+	}
+	return VL{VN(uint64(len(win))), sum, c01Load(win, false), c01Load(win, true)}
+}
+
 type c01Visits struct {
 	blks []Blk
 	ok   bool
@@ -286,6 +310,41 @@ func init() {
 				}
 			}
 		}
+		// many tiny blocks (kind rtload): more than one PutMany batch of root LoadCar's batching path (it
+		// flushes when more than 1000 blocks are buffered, i.e. at blocks 1001, 2002, ...)
+		for i, n := range []int{1003, 2005} {
+			r := c.R.Fork()
+			var blks []Blk
+			for j := 0; j < n; j++ {
+				data := []byte{byte(j), byte(j >> 8), byte(i)}
+				if i == 1 {
+					// 2005 identity-CID blocks (9-byte sections): the model's framing is quadratic in the
+					// payload length, keep it short
+					data = data[:2]
+					blks = append(blks, Blk{mkCid(1, 0x55, 0x00, -1, data), data})
+					continue
+				}
+				blks = append(blks, Blk{mkCid(1, 0x55, 0x12, -1, data), data})
+			}
+			roots := []cid.Cid{blks[0].Cid, blks[n-1].Cid}
+			o := defaultWOpts
+			o.codec = pick(r, []uint64{0x0400, 0x0401})
+			o.storeID = true
+			wk := []uint64{0, 3}[i] // blockstore (CARv2, PutMany of 1..3 blocks); storage on a stream (CARv1)
+			o.v1 = wk == 3
+			file, class, _ := c01Write(c, wk, o, roots, c01Batches(r, blks), nil, false)
+			if class != "" {
+				panic("c01: many-block writer failed: " + class)
+			}
+			for _, b := range blks {
+				if !hashOK(b.Cid, b.Data) {
+					panic("c01: generated block does not hash to its CID")
+				}
+			}
+			in := VL{cidsVal(roots), blksVal(blks), VB(file)}
+			c.Emit("rtload", in, c01LoadObs(file), true)
+			c.Count("many-blocks:" + c01WriterNames[wk])
+		}
 		if c.Thorough {
 			// the 2^21 varint-width boundary: one block with |cid|+|data| in {2^21-2 .. 2^21+1} next to a small one
 			for i, t := range []int{2097150, 2097151, 2097152, 2097153} {
@@ -372,6 +431,7 @@ func init() {
 			}
 		}
 	})
+	registerReplay("rtload", func(c *Ctx, in Val) Val { return c01LoadObs([]byte(in.(VL)[2].(VB))) })
 	registerReplay("rt", func(c *Ctx, in Val) Val {
 		l := in.(VL)
 		wk := uint64(l[0].(VN))
